@@ -322,6 +322,13 @@ def htok_rules(ctx, rule, prog, hslots, cslots):
               f"tables attached as {att}", key="tables")
 
 
+def _ancestors_of(n, pm):
+    n = pm.get(n)
+    while n is not None:
+        yield n
+        n = pm.get(n)
+
+
 def reader_grammar_rules(ctx, prefix):
     prog = ctx.prog
     ini = prog.func(PC, "PlotfileCooker.__init__", prefix)
@@ -392,6 +399,29 @@ def run(ctx):
     ok = len(dup) >= 2 and all(norm(d.value) == loopvar for d in dup)
     ctx.check(ok, f"{P}.FIELD-INDEX", site, "every field name (also a de-duplicated one) maps to its header position",
               f"field table stores {[norm(d) for d in dup]} (needs the loop index {loopvar})")
+    # repeated names: the suffix search restarts for every field (counter initialised inside the per-field loop)
+    floop = [n for n in walk_no_nested(ini.node) if isinstance(n, ast.For) and norm(n.iter) == "range(self.nvars)"]
+    if floop:
+        wh = [n for n in ast.walk(floop[0]) if isinstance(n, ast.While)]
+        if wh:
+            counters = {n.target.id for n in ast.walk(wh[0]) if isinstance(n, ast.AugAssign) and isinstance(n.target, ast.Name)}
+            used = {x.id for j in ast.walk(wh[0]) if isinstance(j, ast.JoinedStr) for x in ast.walk(j) if isinstance(x, ast.Name)}
+            cnt = sorted(counters & used)
+            pm = parents(ini.node)
+            okc = bool(cnt)
+            for cname in cnt:
+                inits = [n for n in walk_no_nested(ini.node) if isinstance(n, ast.Assign) and norm(n.targets[0]) == cname
+                         and isinstance(n.value, ast.Constant)]
+                inside = [a for a in inits if floop[0] in list(_ancestors_of(a, pm)) and wh[0] not in list(_ancestors_of(a, pm))]
+                okc = okc and bool(inside) and all(a.value.value == 2 for a in inside)
+            ctx.check(okc, f"{P}.DEDUP-RESET", site,
+                      "the suffix search for a repeated field name starts at _2 for every field (counter initialised "
+                      "inside the per-field loop)",
+                      f"the suffix counter {cnt} of repeated field names is not re-initialised to 2 inside the per-field "
+                      f"loop: after one name reached _3, the next repeated name starts at _3 as well (density_3 instead of "
+                      f"density_2) and the exposed names no longer follow from the Header", where=loc(ini, wh[0]))
+        else:
+            raise AnalysisError(f"{P}.DEDUP-RESET", site, "suffix search loop for repeated names not found")
     nf = formulas.find_assign(ini, "self.nfields")
     ctx.check(nf is not None and norm(nf.value) == "len(self.fields)", f"{P}.FIELD-INDEX", site,
               "nfields = len(fields)", "nfields is not len(self.fields)", key="nfields")
